@@ -93,3 +93,17 @@ func zzH_C04_memcached() {
 		zzAssert(got[0] == c1 && got[1] == c2, "the events carry the commands sent, in order")
 	}
 }
+
+// C01+C09/bytes-memcached: any N bytes over TCP followed by the client going away.
+func zzH_C09_bytes_memcached() {
+	n := zzLen(0, zzParam("N", 3))
+	data := zzBytes(n)
+	s := Memcached().(*memcachedService)
+	s.SetChannel(&zzEvRec{})
+	base := zzLive()
+	zzUnwindIn("memcached", 4*n+8, true)
+	zzDidPanic(func() { s.Handle(context.Background(), &zzCutConn{data: data, cut: n}) })
+	zzUnwindIn("", 0, false)
+	zzQuiesce()
+	zzAssert(zzLive() == base, "no goroutine created on the connection's behalf outlives the handler")
+}
